@@ -409,22 +409,47 @@ pub fn fail_injection<S: USet>(e: &mut Eng<S>, hists: usize, steps: usize) {
 
 /// C18: concurrent readers on shared sets give the single-threaded answers
 pub fn readers<S: USet>(e: &mut Eng<S>, i: usize) {
+    readers_n(e, i, 20)
+}
+
+/// `rounds` read-only operations per thread; large sets get more so that a transient write inside a
+/// long scan is overlapped by other readers with high probability
+pub fn readers_n<S: USet>(e: &mut Eng<S>, i: usize, rounds: usize) {
     let s = match e.slots[i].take() {
         Some(s) => s,
         None => return,
     };
     let before = repr_string(&s);
     let items = s.items();
-    let probes: Vec<u64> = items.iter().cloned().take(50).chain((0..30).map(|k| k * 7919)).collect();
+    let top = (s.capacity() as u64).saturating_sub(1).saturating_mul(64);
+    let probes: Vec<u64> = items.iter().cloned().take(50).chain(items.iter().rev().cloned().take(8)).chain((0..30).map(|k| k * 7919))
+        .chain((0..64).map(|b| S::norm(top.saturating_add(b)))).collect();
     let answers: Vec<bool> = probes.iter().map(|&p| s.con(p)).collect();
     let (len, cap, mem) = (s.len(), s.capacity(), s.mem_used());
     let bad = std::sync::atomic::AtomicUsize::new(0);
+    let walkers_left = std::sync::atomic::AtomicUsize::new(2);
     std::thread::scope(|sc| {
         for t in 0..6 {
-            let (s, items, probes, answers, bad) = (&s, &items, &probes, &answers, &bad);
+            let (s, items, probes, answers, bad, walkers_left) = (&s, &items, &probes, &answers, &bad, &walkers_left);
             sc.spawn(move || {
-                for round in 0..20 {
-                    let ok = match (t + round) % 6 {
+                let mut round = 0;
+                loop {
+                    // beyond the default 20 rounds the roles are fixed per thread, so that walkers and
+                    // probers overlap all the time: threads 0,3 walk, 1,4 probe until the walkers are done
+                    let intense = rounds > 20;
+                    if intense && matches!(t, 1 | 4) {
+                        if walkers_left.load(SeqCst) == 0 {
+                            break;
+                        }
+                    } else if round >= rounds || (intense && matches!(t, 2 | 5) && round >= rounds / 8) {
+                        if intense && matches!(t, 0 | 3) {
+                            walkers_left.fetch_sub(1, SeqCst);
+                        }
+                        break;
+                    }
+                    round += 1;
+                    let kind = if !intense { (t + round) % 6 } else { match t { 0 | 3 => 1, 1 | 4 => if round % 16 == 0 { 4 } else { 0 }, 2 => 3, _ => 5 } };
+                    let ok = match kind {
                         0 => probes.iter().zip(answers.iter()).all(|(&p, &a)| s.con(p) == a),
                         1 => &s.items() == items,
                         2 => s.len() == len && s.capacity() == cap && s.mem_used() == mem && s.is_empty() == (len == 0),
@@ -624,6 +649,28 @@ pub fn sizes<S: USet>(e: &mut Eng<S>, thorough: bool) {
         e.op_extend(1, &v);
         e.op_eq(0, 1);
     }
+    // one big batch (above any plausible bulk-path threshold): sparse values, collect vs extend vs insert loop
+    for n in [20_000u64, 70_000] {
+        if n > 20_000 && !thorough {
+            continue;
+        }
+        e.begin(&format!("sizes-bulk-{}", n));
+        let v: Vec<u64> = (0..n).map(|k| S::norm(k.wrapping_mul(0x9E3779B97F4A7C15) >> 20)).collect();
+        e.op_collect(0, &v);
+        e.op_new(1);
+        e.op_extend(1, &v);
+        e.op_eq(0, 1);
+        e.op_obs(1);
+        e.op_iter(1);
+        #[cfg(any(feature = "serde", feature = "compactserde"))]
+        {
+            serde_roundtrip(e, 1, 4);
+            #[cfg(all(feature = "serde", not(feature = "compactserde")))]
+            serde_sequence(e, 5, &v);
+        }
+        e.op_drop(0);
+        e.op_drop(1);
+    }
     // a large dense set grown in place, cloned, drained, dropped (block sizes beyond a page)
     for n in [40_000u64, 70_000] {
         e.begin(&format!("sizes-bigdense-{}", n));
@@ -648,8 +695,73 @@ pub fn sizes<S: USet>(e: &mut Eng<S>, thorough: bool) {
 }
 
 pub fn fixed<S: USet>(e: &mut Eng<S>, profile: &str) {
-    if matches!(profile, "collect" | "mem" | "alloc") {
+    if matches!(profile, "collect" | "mem" | "alloc" | "det" | "serde" | "compact") {
         sizes(e, false);
+    }
+    if profile == "eqops" {
+        // the same members reached through different layouts and insertion orders: == and Hash must agree
+        for (name, start, n, stride) in [("run300", 1024u64, 300u64, 1u64), ("run1000", 100_000, 1000, 1), ("run90", 5000, 90, 1), ("stride", 2000, 200, 3), ("lowrun", 0, 400, 1)] {
+            e.begin(&format!("hash-layouts-{}", name));
+            let v: Vec<u64> = (0..n).map(|k| S::norm(start + k * stride)).collect();
+            e.op_new(0);
+            for &x in &v {
+                e.op_ins(0, x);
+            }
+            e.op_new(1);
+            for &x in v.iter().rev() {
+                e.op_ins(1, x);
+            }
+            e.op_collect(2, &v);
+            e.op_new(3);
+            e.op_extend(3, &v);
+            e.op_new(4);
+            for k in 0..n {
+                e.op_ins(4, v[((k * 7919) % n) as usize]);
+            }
+            e.op_ins(4, S::norm(start + n * stride + 77));
+            e.op_rem(4, S::norm(start + n * stride + 77));
+            for i in 0..5 {
+                for j in 0..5 {
+                    if i < j {
+                        e.op_eq(i, j);
+                    }
+                }
+            }
+            for k in 0..5 {
+                e.op_drop(k);
+            }
+        }
+    }
+    if profile == "readers" {
+        // large sets of every heap layout under concurrent readers (long-table paths of the read-only code)
+        let w = S::W as u64;
+        e.begin("readers-big-dense");
+        let v: Vec<u64> = (0..90_000u64).filter(|k| k % 3 != 1 && !(20_000..60_000).contains(k)).collect();
+        e.op_collect(0, &v);
+        readers_n(e, 0, 120);
+        e.op_ins(0, 89_999);
+        e.op_rem(0, 3);
+        readers_n(e, 0, 120);
+        e.begin("readers-sparse-dense");
+        e.op_wcm(0, 1 << 16, 1 << 22);
+        for x in [0u64, 5, 1 << 22, 70_000] {
+            e.op_ins(0, x);
+        }
+        readers_n(e, 0, 1200);
+        e.begin("readers-big-bitmap-table");
+        let v: Vec<u64> = (0..30_000u64).map(|k| S::norm((k * 977) % (1 << (w / 2)))).collect();
+        e.op_collect(1, &v);
+        readers_n(e, 1, 120);
+        e.begin("readers-big-plain-table");
+        let v: Vec<u64> = (0..20_000u64).map(|k| S::norm((k.wrapping_mul(0x9E3779B97F4A7C15)) | (1 << (w - 1)))).chain([0u64]).collect();
+        e.op_collect(2, &v);
+        readers_n(e, 2, 120);
+        e.op_binop(3, 2, 2, false, false);
+        e.op_binop(3, 2, 2, true, false);
+        readers_n(e, 2, 120);
+        for k in 0..4 {
+            e.op_drop(k);
+        }
     }
     // replay corpus: the inputs of the past findings (DESIGN.md section 6) run first in every profile
     e.begin("corpus-D1-dup-collect");
